@@ -468,6 +468,10 @@ pub fn case(max_len: usize) -> impl Strategy<Value = Case> {
     (prop_oneof![3 => Just(0u8), 1 => 1u8..4], prop_oneof![4 => 1u8..=13, 1 => Just(0u8)], prop::collection::vec(op(), 1..max_len), prop::collection::vec(any::<u16>(), 0..3)).prop_map(|(flush, rotation, ops, truncate_ops)| Case { flush, rotation, ops, truncate_ops, record: true })
 }
 
+pub fn check(c: &Case) -> Verdict {
+    run_case(c)
+}
+
 pub fn run(run: &Run) {
     run.assume("a crash is the death of the process: everything already handed to the kernel by write() survives; power loss (lost page cache) is outside the property");
     run.assume("crash points are the instrumented steps (before/inside/after a record write, rotation, checkpoint steps, each deletion) plus every byte-truncation of the record being written for sampled operations");
